@@ -53,10 +53,16 @@ def _slice_item(repo, cfg):
     unit. Only the wrapper head/tail are hand-written; the body is the repository's text."""
     src = cfg['src']
     host = X.find_item(repo, src['in'])
-    ms = list(re.finditer(src['from'], host.raw, flags=re.S))
-    if len(ms) != 1:
-        raise Undecided('slice anchor `from` /%s/ matched %d times in %s' % (src['from'], len(ms), host.qual))
-    a = ms[0].start()
+    if src.get('from') == 'BODY_START':
+        # the slice starts with the first statement of the host fn (so that anything inserted in front of the
+        # anchored code is inside the slice too)
+        sh0 = X.fn_shape(host.raw)
+        a = sh0.body_open + 1
+    else:
+        ms = list(re.finditer(src['from'], host.raw, flags=re.S))
+        if len(ms) != 1:
+            raise Undecided('slice anchor `from` /%s/ matched %d times in %s' % (src['from'], len(ms), host.qual))
+        a = ms[0].start()
     me = list(re.finditer(src['to'], host.raw[a:], flags=re.S))
     if not me:
         raise Undecided('slice anchor `to` /%s/ not found after `from` in %s' % (src['to'], host.qual))
